@@ -8,6 +8,7 @@ import common as C
 import verde as vd
 
 ID = "C09"
+TRANSLATED = "blocks"      # Gen/Blocks.lean (BlockReduce.filter / _block_coordinates, pinned) is regenerated from /repo and bridged to the model in Props/C09.lean
 FILES = ["verde/blockreduce.py", "verde/coordinates.py"]
 RULE = ("corpus + seeded clouds (uniform and clustered, 1..N points, 2-3 coordinate arrays, 1..3 data components with non-constant dyadic values, "
         "weights or none) x reductions {mean, median, sum, min, max, numpy.average} x spacing/shape x region given/inferred x center_coordinates x drop_coords "
